@@ -19,8 +19,71 @@ package memkv
 //@   requires [lock-held] holds(s)
 //@   modifies inferred:(*store).get
 
+// bget is what the batch last read for a key: its own pending write if there is one, else the store
+// (the trusted clause below is a ghost assignment "bget := result" at the return of get)
+//@ ghost bget Slice
 //@ func (*batch).get(key) (result)
-//@   props C19 C11
+//@   props C19 C11 C12
 //@   nosafety
 //@   requires [batch-holds-the-store-lock] b != nil && b.store != nil && holds_w(b.store)
-//@   modifies inferred:(*batch).get
+//@   modifies inferred:(*batch).get ghost.bget
+//@   assume_ensures [ghost-assignment] bget == result
+//@   ensures [frame] b.err == old(b.err)
+
+// ---- C11 / C12: the in-memory batch against the engine contract ----
+// A conditional operation arms the batch's error exactly when its condition does not hold on the
+// value the batch sees for the key; an armed batch ignores every later operation and Commit
+// returns the error without touching the store; otherwise Commit applies everything and returns nil.
+// skl_writes counts the writes to the skip list.
+//@ ghost skl_writes Int
+//@ func @github.com/huandu/skiplist.(*SkipList).Set(key, value) (elem)
+//@   assumed
+//@   modifies ghost.skl_writes
+//@   ensures [counted] skl_writes == old(skl_writes)+1
+//@ func @github.com/huandu/skiplist.(*SkipList).Remove(key) (elem)
+//@   assumed
+//@   modifies ghost.skl_writes
+//@   ensures [counted] skl_writes == old(skl_writes)+1
+
+//@ func (*batch).PutIfNotExist(key, val, ttl)
+//@   props C11 C12
+//@   nosafety
+//@   requires b != nil && b.store != nil && holds_w(b.store)
+//@   modifies inferred:(*batch).PutIfNotExist ghost.bget
+//@   ensures [armed-batches-ignore-the-operation] old(b.err) != nil ==> b.err == old(b.err)
+//@   ensures [takes-effect-exactly-when-the-key-is-absent] old(b.err) == nil ==> (b.err == nil) == is_nil(bget)
+//@   ensures [refusal-is-a-failed-condition] old(b.err) == nil && b.err != nil ==> err_is(b.err, storage.ErrCASFailed)
+//@   ensures [store-untouched] skl_writes == old(skl_writes)
+
+//@ func (*batch).CAS(key, newVal, oldVal, ttl)
+//@   props C11 C12
+//@   nosafety
+//@   requires b != nil && b.store != nil && holds_w(b.store)
+//@   modifies inferred:(*batch).CAS ghost.bget
+//@   ensures [armed-batches-ignore-the-operation] old(b.err) != nil ==> b.err == old(b.err)
+//@   ensures [takes-effect-exactly-when-the-value-seen-equals-the-expectation] old(b.err) == nil ==> (b.err == nil) == (!is_nil(bget) && bytes_eq(bget, oldVal))
+//@   ensures [refusal-is-a-failed-condition] old(b.err) == nil && b.err != nil ==> err_is(b.err, storage.ErrCASFailed)
+//@   ensures [store-untouched] skl_writes == old(skl_writes)
+
+//@ func (*batch).Put(key, val, ttl)
+//@   props C11 C12
+//@   nosafety
+//@   requires b != nil
+//@   modifies inferred:(*batch).Put
+//@   ensures [unconditional] b.err == old(b.err) && skl_writes == old(skl_writes)
+
+//@ func (*batch).Del(key)
+//@   props C11 C12
+//@   nosafety
+//@   requires b != nil
+//@   modifies inferred:(*batch).Del
+//@   ensures [unconditional] b.err == old(b.err) && skl_writes == old(skl_writes)
+
+//@ func (*batch).Commit(ctx) (err)
+//@   props C11 C12
+//@   nosafety
+//@   requires b != nil && b.store != nil && holds_w(b.store)
+//@   modifies inferred:(*batch).Commit ghost.skl_writes
+//@   ensures [all-or-nothing] old(b.err) != nil ==> err == old(b.err) && skl_writes == old(skl_writes)
+//@   ensures [applied] old(b.err) == nil ==> err == nil
+//@   loop 0 invariant [armed-batches-never-get-here] old(b.err) == nil
